@@ -600,10 +600,13 @@ class ExcelModel:
 
     def compile(self, inputs, outputs):
         dsp = self.dsp.shrink_dsp(inputs=inputs, outputs=outputs)
-        inp = set(inputs)
+        inp, stack = set(), list(inputs)
         nodes = dsp.nodes
-        for i in inputs:
-            inp.update(nodes.get(i, {}).get('inv-data', ()))
+        while stack:  # E.g., a name of a range: name -> range -> cells.
+            i = stack.pop()
+            if i not in inp:
+                inp.add(i)
+                stack.extend(nodes.get(i, {}).get('inv-data', ()))
         dsp.default_values = {
             k: v for k, v in dsp.default_values.items() if k not in inp
         }
